@@ -11,6 +11,10 @@
 
 #include <array>
 #include <forward_list>
+#include <functional>
+#include <memory>
+#include <algorithm>
+#include <limits>
 #include <list>
 #include <tuple>
 #include <utility>
@@ -219,6 +223,52 @@ struct GenericKind : KindBase {
   long expect(long i) const { return vals[i]; }
 };
 
+// an iterator pair with a ONE-WAY conversion (mutable -> const only) that implements equals/distanceTo for
+// both operand types: the only way to reach the `else` (not is_convertible<T2,T1>) branches of the
+// relational operators of the legacy facades at run time
+template <bool isConst, template <class, class, class, class> class Facade>
+class OWIt : public Facade<OWIt<isConst, Facade>, std::conditional_t<isConst, const long, long>,
+                           std::conditional_t<isConst, const long&, long&>, std::ptrdiff_t> {
+  friend class OWIt<!isConst, Facade>;
+  Vals* c_ = nullptr;
+  std::ptrdiff_t p_ = 0;
+
+ public:
+  using R = std::conditional_t<isConst, const long&, long&>;
+  OWIt() {}
+  OWIt(Vals& c, std::ptrdiff_t p) : c_(&c), p_(p) {}
+  template <bool o, std::enable_if_t<(isConst && !o), int> = 0>
+  OWIt(const OWIt<o, Facade>& other) : c_(other.c_), p_(other.p_) {}
+  bool equals(const OWIt<true, Facade>& o) const { return p_ == o.p_ && c_ == o.c_; }
+  bool equals(const OWIt<false, Facade>& o) const { return p_ == o.p_ && c_ == o.c_; }
+  R dereference() const { return (*c_)[p_]; }
+  void increment() { ++p_; }
+  void decrement() { --p_; }
+  R elementAt(std::ptrdiff_t n) const { return (*c_)[p_ + n]; }
+  void advance(std::ptrdiff_t n) { p_ += n; }
+  std::ptrdiff_t distanceTo(const OWIt<true, Facade>& o) const { return o.p_ - p_; }
+  std::ptrdiff_t distanceTo(const OWIt<false, Facade>& o) const { return o.p_ - p_; }
+};
+template <template <class, class, class, class> class Facade, int CAT>
+struct OneWayKind : KindBase {
+  static constexpr int cat = CAT;
+  static constexpr bool beforeBegin = true;
+  Vals vals;
+  explicit OneWayKind(const Vals& x) : vals(x) {}
+  using MI = OWIt<false, Facade>;
+  using CI = OWIt<true, Facade>;
+  static_assert(std::is_convertible_v<MI, CI> && !std::is_convertible_v<CI, MI>);
+  MI mbegin() { return MI(vals, 0); }
+  MI mend() { return MI(vals, (std::ptrdiff_t)vals.size()); }
+  CI cbegin() { return CI(vals, 0); }
+  CI cend() { return CI(vals, (std::ptrdiff_t)vals.size()); }
+  MI mbefore() { return MI(vals, -1); }
+  CI cbefore() { return CI(vals, -1); }
+  template <class R> static long val(const R& r) { return r; }
+  template <class R> std::string chk(const R&, long) { return ""; }
+  long expect(long i) const { return vals[i]; }
+};
+
 template <class C, int CAT>
 struct IndexedKind : KindBase {  // IndexedIterator over a std:: container's iterators
   static constexpr int cat = CAT;
@@ -333,94 +383,222 @@ struct SparseKind : KindBase {  // sparseRange over a DynamicVector: (entry, ind
 };
 
 // ------------------------------------------------------------------------------------------------
-// reference tables: iterators at every position, built by single increments from begin()
+// type-erased iterator handle: the law checks below are written once against this interface, every
+// kind only instantiates the thin wrapper W (keeps the compile time of the harness bounded)
 // ------------------------------------------------------------------------------------------------
-template <class A>
-struct Tables {
-  using MI = decltype(std::declval<A&>().mbegin());
-  using CI = decltype(std::declval<A&>().cbegin());
-  std::vector<MI> m;
-  std::vector<CI> c;
-  long lo = 0, n = 0;
-  MI& M(long p) { return m[p - lo]; }
-  CI& C(long p) { return c[p - lo]; }
+struct AnyIt;
+using P = std::unique_ptr<AnyIt>;
+enum Rel { EQ = 0, NE, LT, LE, GT, GE };
+struct AnyIt {
+  bool isConst = false;
+  bool idxValid = true;
+  virtual ~AnyIt() {}
+  virtual P clone() const = 0;
+  virtual const void* addr() const = 0;
+  virtual const void* preinc() = 0;   // address of the returned reference
+  virtual P postinc() = 0;
+  virtual const void* predec() = 0;
+  virtual P postdec() = 0;
+  virtual bool fitsDiff(long n) const = 0;
+  virtual const void* addeq(long n) = 0;
+  virtual const void* subeq(long n) = 0;
+  virtual P plus(long n) const = 0;
+  virtual P minus(long n) const = 0;
+  virtual P nplus(long n) const = 0;
+  virtual long at(long n) const = 0;
+  virtual long deref() const = 0;
+  virtual std::string chk(long i) const = 0;
+  virtual long index() const = 0;
+  virtual int cmp(int rel, const AnyIt& rhs) const = 0;    // 0/1, -1 = not offered
+  virtual bool diff(const AnyIt& rhs, long& out) const = 0;  // false = not offered
 };
 
-static void note(std::string& err, const std::string& what) {
-  if (err.empty()) err = what;
-}
+template <class A, class It, class Oth>
+struct W final : AnyIt {
+  A* a;
+  It it;
+  W(A* a_, const It& i, bool c) : a(a_), it(i) { isConst = c; }
+  P mk(const It& i) const { return P(new W(a, i, isConst)); }
+  P clone() const override { return mk(it); }
+  const void* addr() const override { return &it; }
+  const void* preinc() override { auto& r = ++it; return &r; }
+  P postinc() override { return mk(it++); }
+  const void* predec() override {
+    if constexpr (A::cat >= 1) { auto& r = --it; return &r; }
+    else return nullptr;
+  }
+  P postdec() override {
+    if constexpr (A::cat >= 1) return mk(it--);
+    else return nullptr;
+  }
+  using D = typename std::iterator_traits<It>::difference_type;
+  bool fitsDiff(long n) const override { return (long)(D)n == n; }
+  const void* addeq(long n) override {
+    if constexpr (A::cat >= 2) { auto& r = (it += (D)n); return &r; }
+    else return nullptr;
+  }
+  const void* subeq(long n) override {
+    if constexpr (A::cat >= 2) { auto& r = (it -= (D)n); return &r; }
+    else return nullptr;
+  }
+  template <class R> P wrapResult(const R& r) const {
+    if constexpr (std::is_same_v<R, It>) return mk(r);
+    else {  // IndexedIterator: it+n is an iterator of the wrapped type; re-wrap to compare positions
+      P p = mk(It(r, 0));
+      p->idxValid = false;
+      return p;
+    }
+  }
+  P plus(long n) const override {
+    if constexpr (A::cat >= 2) return wrapResult(it + (D)n);
+    else return nullptr;
+  }
+  P minus(long n) const override {
+    if constexpr (A::cat >= 2) return wrapResult(it - (D)n);
+    else return nullptr;
+  }
+  P nplus(long n) const override {
+    if constexpr (A::cat >= 2 && A::nplus) return wrapResult((D)n + it);
+    else return nullptr;
+  }
+  long at(long n) const override {
+    if constexpr (A::cat >= 2) return a->val(it[(D)n]);
+    else return 0;
+  }
+  long deref() const override { return a->val(*it); }
+  std::string chk(long i) const override { return a->chk(*it, i); }
+  long index() const override {
+    if constexpr (A::hasIndex) return (long)it.index();
+    else return 0;
+  }
+  template <class X, class Y> static int cmpT(int rel, const X& x, const Y& y) {
+    if (rel == EQ) return x == y;
+    if (rel == NE) return x != y;
+    if constexpr (A::cat >= 2 && (A::mixedRel || std::is_same_v<X, Y>)) {
+      switch (rel) {
+        case LT: return x < y;
+        case LE: return x <= y;
+        case GT: return x > y;
+        case GE: return x >= y;
+      }
+    }
+    return -1;
+  }
+  int cmp(int rel, const AnyIt& r) const override {
+    if (auto* s = dynamic_cast<const W<A, It, Oth>*>(&r)) return cmpT(rel, it, s->it);
+    if constexpr (!std::is_same_v<It, Oth>) {
+      if (auto* o = dynamic_cast<const W<A, Oth, It>*>(&r)) return cmpT(rel, it, o->it);
+    }
+    return -1;
+  }
+  template <class X, class Y> static bool diffT(const X& x, const Y& y, long& out) {
+    if constexpr (A::cat >= 2 && (A::mixedRel || std::is_same_v<X, Y>)) { out = (long)(x - y); return true; }
+    else return false;
+  }
+  bool diff(const AnyIt& r, long& out) const override {
+    if (auto* s = dynamic_cast<const W<A, It, Oth>*>(&r)) return diffT(it, s->it, out);
+    if constexpr (!std::is_same_v<It, Oth>) {
+      if (auto* o = dynamic_cast<const W<A, Oth, It>*>(&r)) return diffT(it, o->it, out);
+    }
+    return false;
+  }
+};
+
+// reference tables: iterators at every position, built by single increments from begin()
+struct Tab {
+  std::vector<P> m, c;
+  P mend, cend;
+  long lo = 0, n = 0;
+  // run-time description of the kind
+  int cat = 0;
+  bool nplus = false, hasIndex = false, showIdx = false, mixedRel = true;
+  long idxStart = 0;
+  std::function<long(long)> expect;
+  AnyIt& M(long p) { return *m[p - lo]; }
+  AnyIt& C(long p) { return *c[p - lo]; }
+};
 
 template <class A>
-Tables<A> build(A& a, std::string& err) {
-  Tables<A> T;
+Tab makeTab(A& a) {
+  using MI = decltype(a.mbegin());
+  using CI = decltype(a.cbegin());
+  Tab T;
   T.n = (long)a.vals.size();
   T.lo = A::beforeBegin ? -1 : 0;
+  T.cat = A::cat; T.nplus = A::nplus; T.hasIndex = A::hasIndex; T.showIdx = A::showIdx; T.mixedRel = A::mixedRel;
+  T.idxStart = a.idxStart;
+  T.expect = [&a](long i) { return a.expect(i); };
   if constexpr (A::beforeBegin) {
-    T.m.push_back(a.mbefore());
-    T.c.push_back(a.cbefore());
+    T.m.emplace_back(new W<A, MI, CI>(&a, a.mbefore(), false));
+    T.c.emplace_back(new W<A, CI, MI>(&a, a.cbefore(), true));
   }
   {
     auto it = a.mbegin();
     for (long p = 0; p <= T.n; ++p) {
-      T.m.push_back(it);
-      if (p < T.n) {
-        if (a.val(*it) != a.expect(p)) note(err, "mutable iterator after " + std::to_string(p) + " increments yields " + std::to_string(a.val(*it)));
-        ++it;
-      }
+      T.m.emplace_back(new W<A, MI, CI>(&a, it, false));
+      if (p < T.n) ++it;
     }
-    if (!(T.m.back() == a.mend()) || (T.m.back() != a.mend())) note(err, "size() increments from begin() do not reach end()");
-    for (long p = 0; p < T.n; ++p)
-      if (T.M(p) == a.mend()) note(err, "end() reached after only " + std::to_string(p) + " increments");
+    T.mend.reset(new W<A, MI, CI>(&a, a.mend(), false));
   }
   {
     auto it = a.cbegin();
     for (long p = 0; p <= T.n; ++p) {
-      T.c.push_back(it);
-      if (p < T.n) {
-        if (a.val(*it) != a.expect(p)) note(err, "const iterator after " + std::to_string(p) + " increments yields " + std::to_string(a.val(*it)));
-        ++it;
-      }
+      T.c.emplace_back(new W<A, CI, MI>(&a, it, true));
+      if (p < T.n) ++it;
     }
-    if (!(T.c.back() == a.cend()) || (T.c.back() != a.cend())) note(err, "size() increments from const begin() do not reach end()");
+    T.cend.reset(new W<A, CI, MI>(&a, a.cend(), true));
   }
   return T;
 }
 
+static void note(std::string& err, const std::string& what) {
+  if (err.empty()) err = what;
+}
+static std::string S(long v) { return std::to_string(v); }
+
+static void checkTab(Tab& T, std::string& err) {
+  for (int k = 0; k < 2; ++k) {
+    auto& tab = k ? T.c : T.m;
+    AnyIt& e = k ? *T.cend : *T.mend;
+    const char* nm = k ? "const" : "mutable";
+    for (long p = 0; p < T.n; ++p) {
+      long v = tab[p - T.lo]->deref();
+      if (v != T.expect(p)) note(err, std::string(nm) + " iterator after " + S(p) + " increments yields " + S(v));
+      if (tab[p - T.lo]->cmp(EQ, e) != 0) note(err, std::string(nm) + " end() reached after only " + S(p) + " increments");
+    }
+    if (tab.back()->cmp(EQ, e) != 1 || tab.back()->cmp(NE, e) != 0)
+      note(err, std::string("size() increments from ") + nm + " begin() do not reach end()");
+  }
+}
+
 // position of an iterator = the unique table position it compares equal to (checked against both tables,
 // both argument orders and operator!=)
-template <class A, class It>
-long posOf(Tables<A>& T, const It& it, std::string& err) {
+static long posOf(Tab& T, const AnyIt& it, std::string& err) {
   long found = NOPOS;
   int cnt = 0;
   for (long p = T.lo; p <= T.n; ++p) {
-    bool e1 = (it == T.M(p));
-    bool e2 = (T.M(p) == it);
-    bool e3 = (it == T.C(p));
-    bool e4 = (T.C(p) == it);
-    bool n1 = (it != T.M(p));
-    bool n3 = (it != T.C(p));
-    bool n4 = (T.C(p) != it);
+    int e1 = it.cmp(EQ, T.M(p)), e2 = T.M(p).cmp(EQ, it), e3 = it.cmp(EQ, T.C(p)), e4 = T.C(p).cmp(EQ, it);
+    int n1 = it.cmp(NE, T.M(p)), n3 = it.cmp(NE, T.C(p)), n4 = T.C(p).cmp(NE, it);
     if (e1 != e2 || e1 != e3 || e1 != e4)
-      note(err, "equality with the mutable/const iterator at position " + std::to_string(p) + " is inconsistent");
-    if (n1 == e1 || n3 == e3 || n4 == e4) note(err, "operator!= is not the negation of operator== at position " + std::to_string(p));
-    if (e1) { found = p; ++cnt; }
+      note(err, "equality with the mutable/const iterator at position " + S(p) + " is inconsistent");
+    if (n1 == e1 || n3 == e3 || n4 == e4) note(err, "operator!= is not the negation of operator== at position " + S(p));
+    if (e1 == 1) { found = p; ++cnt; }
   }
   if (cnt != 1) {
-    note(err, "iterator compares equal to " + std::to_string(cnt) + " reference positions");
+    note(err, "iterator compares equal to " + S(cnt) + " reference positions");
     return NOPOS;
   }
   return found;
 }
 
-template <class A, class It>
-std::string showPos(A& a, Tables<A>& T, const It& it, std::string& err, long expect) {
+static std::string showPos(Tab& T, const AnyIt& it, std::string& err, long expect) {
   long p = posOf(T, it, err);
-  if (p != expect) note(err, "iterator is at position " + std::to_string(p) + ", integer law gives " + std::to_string(expect));
-  std::string s = std::to_string(p);
-  if constexpr (A::showIdx && requires { it.index(); }) {
-    long ix = (long)it.index();
-    if (ix != a.idxStart + expect) note(err, "index() is " + std::to_string(ix) + ", expected " + std::to_string(a.idxStart + expect));
-    s += "#" + std::to_string(ix);
+  if (p != expect) note(err, "iterator is at position " + S(p) + ", integer law gives " + S(expect));
+  std::string s = S(p);
+  if (T.showIdx && it.idxValid) {
+    long ix = it.index();
+    if (ix != T.idxStart + expect) note(err, "index() is " + S(ix) + ", expected " + S(T.idxStart + expect));
+    s += "#" + S(ix);
   }
   return s;
 }
@@ -430,6 +608,14 @@ static bool isInt(const std::string& s) {
   size_t i = (s[0] == '-') ? 1 : 0;
   if (i == s.size() || s.size() > 12) return false;
   for (; i < s.size(); ++i) if (s[i] < '0' || s[i] > '9') return false;
+  return true;
+}
+static bool isLong(const std::string& s, long& out) {
+  if (s.empty() || s.size() > 20) return false;
+  size_t i = (s[0] == '-') ? 1 : 0;
+  if (i == s.size()) return false;
+  for (; i < s.size(); ++i) if (s[i] < '0' || s[i] > '9') return false;
+  try { out = std::stol(s); } catch (...) { return false; }
   return true;
 }
 
@@ -443,8 +629,7 @@ static Result badOp() {
 // ------------------------------------------------------------------------------------------------
 // one iterator expression
 // ------------------------------------------------------------------------------------------------
-template <class A>
-Result execIt(A& a, const std::vector<std::string>& w, size_t k) {
+static Result execIt(Tab& T, const std::vector<std::string>& w, size_t k) {
   Result res;
   std::string err;
   const std::string op = w.at(k);
@@ -463,163 +648,121 @@ Result execIt(A& a, const std::vector<std::string>& w, size_t k) {
   if (!(u1 || u2 || b)) return badOp();
   if (arg.size() != (u1 ? 1u : 2u) || cv.size() != (b ? 2u : 1u)) return badOp();
 
-  Tables<A> T = build(a, err);
+  checkTab(T, err);
   const long n = T.n, lo = T.lo;
   const long p = arg[0];
   if (p < lo || p > n) return badOp();
-  stat("op_" + op);
-  stat("size_" + std::to_string(n > 8 ? 9 : n));
-  stat("cv_" + cv);
-  if (p == lo) stat("pos_first");
-  if (p == n) stat("pos_end");
-
-  auto withIt = [&](char c, long pos, auto&& f) {
-    if (c == 'm') { auto it = T.M(pos); f(it); }
-    else { auto it = T.C(pos); f(it); }
-  };
-  bool bad = false;
+  auto get = [&](char c, long pos) { return (c == 'm' ? T.M(pos) : T.C(pos)).clone(); };
 
   if (u1) {
-    withIt(cv[0], p, [&](auto& it) {
-      if (op == "preinc" || op == "postinc") {
-        if (p >= n) { bad = true; return; }
-        if (op == "preinc") {
-          auto& r = ++it;
-          if ((const void*)&r != (const void*)&it) note(err, "++it does not return *this");
-          res.impl = showPos(a, T, r, err, p + 1) + " " + showPos(a, T, it, err, p + 1);
-        } else {
-          auto r = it++;
-          res.impl = showPos(a, T, r, err, p) + " " + showPos(a, T, it, err, p + 1);
-        }
-      } else if (op == "deref") {
-        if (p < 0 || p >= n) { bad = true; return; }
-        long v = a.val(*it);
-        if (v != a.expect(p)) note(err, "*it yields " + std::to_string(v) + " at position " + std::to_string(p));
-        std::string c2 = a.chk(*it, p);
-        if (!c2.empty()) note(err, c2);
-        res.impl = std::to_string(v);
-      } else if (op == "index") {
-        if constexpr (A::hasIndex) {
-          long ix = (long)it.index();
-          if (ix != a.idxStart + p) note(err, "index() is " + std::to_string(ix) + " at position " + std::to_string(p));
-          res.impl = std::to_string(ix);
-        } else bad = true;
+    P it = get(cv[0], p);
+    if (op == "preinc" || op == "postinc" || op == "incdec") {
+      if (p >= n || (op == "incdec" && T.cat < 1)) return badOp();
+      if (op == "preinc") {
+        const void* r = it->preinc();
+        if (r != it->addr()) note(err, "++it does not return *this");
+        std::string s = showPos(T, *it, err, p + 1);
+        res.impl = s + " " + s;
+      } else if (op == "postinc") {
+        P r = it->postinc();
+        res.impl = showPos(T, *r, err, p) + " " + showPos(T, *it, err, p + 1);
       } else {
-        if constexpr (A::cat >= 1) {
-          if (op == "predec" || op == "postdec") {
-            if (p <= lo) { bad = true; return; }
-            if (op == "predec") {
-              auto& r = --it;
-              if ((const void*)&r != (const void*)&it) note(err, "--it does not return *this");
-              res.impl = showPos(a, T, r, err, p - 1) + " " + showPos(a, T, it, err, p - 1);
-            } else {
-              auto r = it--;
-              res.impl = showPos(a, T, r, err, p) + " " + showPos(a, T, it, err, p - 1);
-            }
-          } else if (op == "incdec") {
-            if (p >= n) { bad = true; return; }
-            ++it;
-            --it;
-            res.impl = showPos(a, T, it, err, p);
-          } else {  // decinc
-            if (p <= lo) { bad = true; return; }
-            --it;
-            ++it;
-            res.impl = showPos(a, T, it, err, p);
-          }
-        } else bad = true;
+        it->preinc();
+        it->predec();
+        res.impl = showPos(T, *it, err, p);
       }
-    });
+    } else if (op == "predec" || op == "postdec" || op == "decinc") {
+      if (p <= lo || T.cat < 1) return badOp();
+      if (op == "predec") {
+        const void* r = it->predec();
+        if (r != it->addr()) note(err, "--it does not return *this");
+        std::string s = showPos(T, *it, err, p - 1);
+        res.impl = s + " " + s;
+      } else if (op == "postdec") {
+        P r = it->postdec();
+        res.impl = showPos(T, *r, err, p) + " " + showPos(T, *it, err, p - 1);
+      } else {
+        it->predec();
+        it->preinc();
+        res.impl = showPos(T, *it, err, p);
+      }
+    } else if (op == "deref") {
+      if (p < 0 || p >= n) return badOp();
+      long v = it->deref();
+      if (v != T.expect(p)) note(err, "*it yields " + S(v) + " at position " + S(p));
+      std::string c2 = it->chk(p);
+      if (!c2.empty()) note(err, c2);
+      res.impl = S(v);
+    } else {  // index
+      if (!T.hasIndex) return badOp();
+      long ix = it->index();
+      if (ix != T.idxStart + p) note(err, "index() is " + S(ix) + " at position " + S(p));
+      res.impl = S(ix);
+    }
   } else if (u2) {
     const long s = arg[1];
-    withIt(cv[0], p, [&](auto& it) {
-      if (op == "steps") {
-        if (p + s < lo || p + s > n || (s < 0 && A::cat < 1)) { bad = true; return; }
-        if (s >= 0) for (long i = 0; i < s; ++i) ++it;
-        else if constexpr (A::cat >= 1) for (long i = 0; i < -s; ++i) --it;
-        res.impl = showPos(a, T, it, err, p + s);
-        return;
-      }
-      if constexpr (A::cat >= 2) {
-        using It = std::decay_t<decltype(it)>;
-        using D = typename std::iterator_traits<It>::difference_type;
-        const D d = (D)s;
-        if ((long)d != s) { bad = true; return; }
-        const bool neg = (op == "subeq" || op == "minus");
-        const long target = neg ? p - s : p + s;
-        if (op == "at") {
-          if (target < 0 || target >= n) { bad = true; return; }
-          long v = a.val(it[d]);
-          if (v != a.expect(target)) note(err, "it[n] yields " + std::to_string(v) + ", element at p+n is " + std::to_string(a.expect(target)));
-          long v2 = a.val(*(it + d));
-          if (v2 != v) note(err, "it[n] differs from *(it+n)");
-          res.impl = std::to_string(v);
-          return;
-        }
-        if (target < lo || target > n) { bad = true; return; }
-        // n single steps from the same start, for the cross check
-        It walk = it;
-        for (long i = 0; i < (target > p ? target - p : p - target); ++i) { if (target > p) ++walk; else --walk; }
+    P it = get(cv[0], p);
+    if (op == "steps") {
+      if (p + s < lo || p + s > n || (s < 0 && T.cat < 1)) return badOp();
+      for (long i = 0; i < (s < 0 ? -s : s); ++i) { if (s > 0) it->preinc(); else it->predec(); }
+      res.impl = showPos(T, *it, err, p + s);
+    } else {
+      if (T.cat < 2 || !it->fitsDiff(s) || !it->fitsDiff(-s)) return badOp();
+      const bool neg = (op == "subeq" || op == "minus");
+      const long target = neg ? p - s : p + s;
+      if (op == "at") {
+        if (target < 0 || target >= n) return badOp();
+        long v = it->at(s);
+        if (v != T.expect(target)) note(err, "it[n] yields " + S(v) + ", element at p+n is " + S(T.expect(target)));
+        if (it->plus(s)->deref() != v) note(err, "it[n] differs from *(it+n)");
+        res.impl = S(v);
+      } else {
+        if (target < lo || target > n) return badOp();
+        if (op == "nplus" && !T.nplus) return badOp();
+        P walk = it->clone();  // n single steps from the same start, for the cross check
+        for (long i = 0; i < (target > p ? target - p : p - target); ++i) { if (target > p) walk->preinc(); else walk->predec(); }
         if (op == "addeq" || op == "subeq") {
-          if (op == "addeq") {
-            auto& r = (it += d);
-            if ((const void*)&r != (const void*)&it) note(err, "it+=n does not return *this");
-          } else {
-            auto& r = (it -= d);
-            if ((const void*)&r != (const void*)&it) note(err, "it-=n does not return *this");
-          }
-          res.impl = showPos(a, T, it, err, target);
-          if (!(it == walk)) note(err, "advance by n differs from n single steps");
+          const void* r = (op == "addeq") ? it->addeq(s) : it->subeq(s);
+          if (r != it->addr()) note(err, "it" + std::string(neg ? "-=" : "+=") + "n does not return *this");
+          res.impl = showPos(T, *it, err, target);
+          if (it->cmp(EQ, *walk) != 1) note(err, "advance by n differs from n single steps");
         } else {
-          if (op == "nplus" && !A::nplus) { bad = true; return; }
-          auto doit = [&]() {
-            if constexpr (A::nplus) { if (op == "nplus") return d + it; }
-            if (op == "minus") return it - d;
-            return it + d;
-          };
-          auto r = doit();
-          std::string rs = showPos(a, T, r, err, target);
-          res.impl = rs + " " + showPos(a, T, it, err, p);
-          if (!(r == walk)) note(err, "it+n differs from n single steps");
-          if constexpr (A::keepsType) {
-            long dd = (long)(r - it);
-            if (dd != target - p) note(err, "(it+n)-it is " + std::to_string(dd) + ", expected " + std::to_string(target - p));
-          }
+          P r = (op == "plus") ? it->plus(s) : (op == "minus") ? it->minus(s) : it->nplus(s);
+          std::string rs = showPos(T, *r, err, target);
+          res.impl = rs + " " + showPos(T, *it, err, p);
+          if (r->cmp(EQ, *walk) != 1) note(err, "it+n differs from n single steps");
+          long dd;
+          if (r->diff(*it, dd) && dd != target - p) note(err, "(it+n)-it is " + S(dd) + ", expected " + S(target - p));
         }
-      } else bad = true;
-    });
+      }
+    }
   } else {
     const long q = arg[1];
     if (q < lo || q > n) return badOp();
+    P x = get(cv[0], p), y = get(cv[1], q);
+    static const std::vector<std::string> rels = {"eq", "ne", "lt", "le", "gt", "ge"};
+    if (op == "diff") {
+      long dd;
+      if (!x->diff(*y, dd)) return badOp();
+      res.impl = S(dd);
+      if (dd != p - q) note(err, "difference of positions " + S(p) + " and " + S(q) + " is " + res.impl);
+    } else {
+      int rel = (int)(std::find(rels.begin(), rels.end(), op) - rels.begin());
+      int got = x->cmp(rel, *y);
+      if (got < 0) return badOp();
+      bool expect = rel == EQ ? p == q : rel == NE ? p != q : rel == LT ? p < q : rel == LE ? p <= q : rel == GT ? p > q : p >= q;
+      res.impl = got ? "true" : "false";
+      if ((got != 0) != expect) note(err, "position " + S(p) + " " + op + " position " + S(q) + " gave " + res.impl);
+    }
     if (p == q) stat("pair_equal");
     else if (p + 1 == q || q + 1 == p) stat("pair_adjacent");
     else stat("pair_other");
-    withIt(cv[0], p, [&](auto& x) {
-      withIt(cv[1], q, [&](auto& y) {
-        using X = std::decay_t<decltype(x)>;
-        using Y = std::decay_t<decltype(y)>;
-        auto boolRes = [&](bool got, bool expect) {
-          res.impl = got ? "true" : "false";
-          if (got != expect)
-            note(err, "position " + std::to_string(p) + " " + op + " position " + std::to_string(q) + " gave " + res.impl);
-        };
-        if (op == "eq") { boolRes(x == y, p == q); return; }
-        if (op == "ne") { boolRes(x != y, p != q); return; }
-        if constexpr (A::cat >= 2 && (A::mixedRel || std::is_same_v<X, Y>)) {
-          if (op == "lt") boolRes(x < y, p < q);
-          else if (op == "le") boolRes(x <= y, p <= q);
-          else if (op == "gt") boolRes(x > y, p > q);
-          else if (op == "ge") boolRes(x >= y, p >= q);
-          else {
-            long dd = (long)(x - y);
-            res.impl = std::to_string(dd);
-            if (dd != p - q) note(err, "difference of positions " + std::to_string(p) + " and " + std::to_string(q) + " is " + res.impl);
-          }
-        } else bad = true;
-      });
-    });
   }
-  if (bad) return badOp();
+  stat("op_" + op);
+  stat("size_" + S(n > 8 ? 9 : n));
+  stat("cv_" + cv);
+  if (p == lo) stat("pos_first");
+  if (p == n) stat("pos_end");
   if (!err.empty()) res.oracle = "FAIL " + err;
   return res;
 }
@@ -745,7 +888,6 @@ Result execIntegralRange(const std::string& op, long f, long t, const std::vecto
     auto s = r.size();
     res.impl = std::to_string((unsigned long)s);
     if ((unsigned long)s != (unsigned long)(t - f)) note(err, "size() is " + res.impl + ", expected " + std::to_string(t - f));
-    static_assert(std::is_same_v<decltype(s), std::make_unsigned_t<T>>);
   } else if (op == "empty") {
     res.impl = r.empty() ? "true" : "false";
     if (r.empty() != (f == t)) note(err, "empty() is " + res.impl);
@@ -832,18 +974,17 @@ auto mkTupleVector(const Vals& v, std::index_sequence<I...>) { return Dune::Tupl
 template <std::size_t... I>
 auto mkArray(const Vals& v, std::index_sequence<I...>) { return std::array<long, sizeof...(I)>{v[I]...}; }
 
-template <class F>
+// compile-time lengths offered per container kind: tuple 0..6, tvec {0,1,3,6}, arr {0,2,5}
+template <int WHICH, class F>
 bool withLen(std::size_t n, F&& f) {
   switch (n) {
     case 0: f(std::make_index_sequence<0>{}); return true;
-    case 1: f(std::make_index_sequence<1>{}); return true;
-    case 2: f(std::make_index_sequence<2>{}); return true;
-    case 3: f(std::make_index_sequence<3>{}); return true;
-    case 4: f(std::make_index_sequence<4>{}); return true;
-    case 5: f(std::make_index_sequence<5>{}); return true;
-    case 6: f(std::make_index_sequence<6>{}); return true;
-    case 7: f(std::make_index_sequence<7>{}); return true;
-    case 8: f(std::make_index_sequence<8>{}); return true;
+    case 1: if constexpr (WHICH != 2) { f(std::make_index_sequence<1>{}); return true; } else return false;
+    case 2: if constexpr (WHICH != 1) { f(std::make_index_sequence<2>{}); return true; } else return false;
+    case 3: if constexpr (WHICH != 2) { f(std::make_index_sequence<3>{}); return true; } else return false;
+    case 4: if constexpr (WHICH == 0) { f(std::make_index_sequence<4>{}); return true; } else return false;
+    case 5: if constexpr (WHICH != 1) { f(std::make_index_sequence<5>{}); return true; } else return false;
+    case 6: if constexpr (WHICH != 2) { f(std::make_index_sequence<6>{}); return true; } else return false;
     default: return false;
   }
 }
@@ -970,15 +1111,16 @@ Result hybridSwitchSeq(Seq seq, const Vals& cases, long v) {
 }
 
 // static integral ranges over std::size_t with bounds in [0,8): from = F, to = F+L
+static const std::vector<std::pair<long, long>>& staticRanges() {
+  static const std::vector<std::pair<long, long>> c = {{0, 0}, {0, 1}, {0, 4}, {2, 5}, {3, 3}, {1, 8}, {7, 8}};
+  return c;
+}
 template <class F>
 bool withStaticRange(long from, long to, F&& f) {
-  if (from < 0 || to < from || to > 8) return false;
-  return withConst<std::size_t, 9>(from, [&](auto fc) {
-    withConst<std::size_t, 9>(to - from, [&](auto lc) {
-      constexpr std::size_t F0 = decltype(fc)::value, L0 = decltype(lc)::value;
-      if constexpr (F0 + L0 <= 8) f(Dune::index_constant<F0>{}, Dune::index_constant<F0 + L0>{});
-    });
-  });
+#define SR(A, B) if (from == A && to == B) { f(Dune::index_constant<A>{}, Dune::index_constant<B>{}); return true; }
+  SR(0, 0) SR(0, 1) SR(0, 4) SR(2, 5) SR(3, 3) SR(1, 8) SR(7, 8)
+#undef SR
+  return false;
 }
 
 static Result execHybrid(const std::vector<std::string>& w) {
@@ -996,11 +1138,10 @@ static Result execHybrid(const std::vector<std::string>& w) {
   if (ck == "tuple" || ck == "tvec" || ck == "arr") {
     Vals v;
     if (!parseVals(vs, v, 8, 1000)) return badOp();
-    bool ok = withLen(v.size(), [&](auto idx) {
-      if (ck == "tuple") { auto t = mkTuple(v, idx); res = hybridContainerOp(t, v, op, arg, true); }
-      else if (ck == "tvec") { auto t = mkTupleVector(v, idx); res = hybridContainerOp(t, v, op, arg, true); }
-      else { auto t = mkArray(v, idx); res = hybridContainerOp(t, v, op, arg, true); }
-    });
+    bool ok;
+    if (ck == "tuple") ok = withLen<0>(v.size(), [&](auto idx) { auto t = mkTuple(v, idx); res = hybridContainerOp(t, v, op, arg, true); });
+    else if (ck == "tvec") ok = withLen<1>(v.size(), [&](auto idx) { auto t = mkTupleVector(v, idx); res = hybridContainerOp(t, v, op, arg, true); });
+    else ok = withLen<2>(v.size(), [&](auto idx) { auto t = mkArray(v, idx); res = hybridContainerOp(t, v, op, arg, true); });
     return ok ? res : badOp();
   }
   if (ck == "iseq") {
@@ -1132,7 +1273,6 @@ bool withKind(const std::string& kindTok, const std::string& spec, F&& f) {
     if (kind == "ir_i8") return go((signed char)0);
     if (kind == "ir_u8") return go((unsigned char)0);
     if (kind == "ir_i16") return go((short)0);
-    if (kind == "ir_u16") return go((unsigned short)0);
     if (kind == "ir_i32") return go((int)0);
     if (kind == "ir_u32") return go((unsigned)0);
     if (kind == "ir_i64") return go((long)0);
@@ -1153,9 +1293,7 @@ bool withKind(const std::string& kindTok, const std::string& spec, F&& f) {
   if (kind == "fvec" && needPlus(false)) {
     switch (n) {
       case 1: { DenseVecKind<FieldVector<long, 1>> a(v); f(a); return true; }
-      case 2: { DenseVecKind<FieldVector<long, 2>> a(v); f(a); return true; }
       case 3: { DenseVecKind<FieldVector<long, 3>> a(v); f(a); return true; }
-      case 4: { DenseVecKind<FieldVector<long, 4>> a(v); f(a); return true; }
       case 6: { DenseVecKind<FieldVector<long, 6>> a(v); f(a); return true; }
       default: return false;
     }
@@ -1163,10 +1301,8 @@ bool withKind(const std::string& kindTok, const std::string& spec, F&& f) {
   if (kind == "dmat" && needPlus(false)) { DenseMatKind<DynamicMatrix<long>> a(v); f(a); return true; }
   if (kind == "fmat" && needPlus(false)) {
     switch (n) {
-      case 1: { DenseMatKind<FieldMatrix<long, 1, 2>> a(v); f(a); return true; }
       case 2: { DenseMatKind<FieldMatrix<long, 2, 2>> a(v); f(a); return true; }
       case 3: { DenseMatKind<FieldMatrix<long, 3, 2>> a(v); f(a); return true; }
-      case 5: { DenseMatKind<FieldMatrix<long, 5, 2>> a(v); f(a); return true; }
       default: return false;
     }
   }
@@ -1174,11 +1310,9 @@ bool withKind(const std::string& kindTok, const std::string& spec, F&& f) {
     switch (n) {
       case 2: { DiagKind<2> a(v); f(a); return true; }
       case 3: { DiagKind<3> a(v); f(a); return true; }
-      case 5: { DiagKind<5> a(v); f(a); return true; }
       default: return false;
     }
   }
-  if (kind == "al1" && needPlus(true)) { ArrayListKind<1> a(v, k); f(a); return true; }
   if (kind == "al3" && needPlus(true)) { ArrayListKind<3> a(v, k); f(a); return true; }
   if (kind == "al100" && needPlus(true)) { ArrayListKind<100> a(v, k); f(a); return true; }
   if (kind == "sll" && needPlus(false)) { SLListKind<false> a(v); f(a); return true; }
@@ -1186,6 +1320,8 @@ bool withKind(const std::string& kindTok, const std::string& spec, F&& f) {
   if (kind == "gira" && needPlus(false)) { GenericKind<RandomAccessIteratorFacade, 2> a(v); f(a); return true; }
   if (kind == "gibi" && needPlus(false)) { GenericKind<BidirectionalIteratorFacade, 1> a(v); f(a); return true; }
   if (kind == "gifw" && needPlus(false)) { GenericKind<ForwardIteratorFacade, 0> a(v); f(a); return true; }
+  if (kind == "owra" && needPlus(false)) { OneWayKind<RandomAccessIteratorFacade, 2> a(v); f(a); return true; }
+  if (kind == "owbi" && needPlus(false)) { OneWayKind<BidirectionalIteratorFacade, 1> a(v); f(a); return true; }
   if (kind == "iiv" && needPlus(true)) { IndexedKind<std::vector<long>, 2> a(v, k); f(a); return true; }
   if (kind == "iil" && needPlus(true)) { IndexedKind<std::list<long>, 1> a(v, k); f(a); return true; }
   if (kind == "iif" && needPlus(true)) { IndexedKind<std::forward_list<long>, 0> a(v, k); f(a); return true; }
@@ -1236,8 +1372,9 @@ static Result execRange(const std::vector<std::string>& w) {
   }
   std::vector<long> arg;
   for (size_t i = 4; i < w.size(); ++i) {
-    if (!isInt(w[i])) return badOp();
-    arg.push_back(std::stol(w[i]));
+    long x;
+    if (!isLong(w[i], x)) return badOp();
+    arg.push_back(x);
   }
   const std::string& op = w[3];
   if ((op == "contains" || op == "at") ? arg.size() != 1 : !arg.empty()) return badOp();
@@ -1255,7 +1392,7 @@ static Result execRange(const std::vector<std::string>& w) {
     long f, t;
     if (!parseFromTo(w[2], f, t) || f > t) return badOp();
 #define IR(K, T) if (kind == K) { if (!TypeLimits<T>::fits(f, t)) return badOp(); return execIntegralRange<T>(op, f, t, arg); }
-    IR("ir_i8", signed char) IR("ir_u8", unsigned char) IR("ir_i16", short) IR("ir_u16", unsigned short)
+    IR("ir_i8", signed char) IR("ir_u8", unsigned char) IR("ir_i16", short)
     IR("ir_i32", int) IR("ir_u32", unsigned) IR("ir_i64", long) IR("ir_u64", unsigned long)
 #undef IR
     return badOp();
@@ -1292,7 +1429,8 @@ static Result exec(const std::string& line) {
   Result res;
   bool ok = withKind(w[1], w[2], [&](auto& a) {
     stat("kind_" + w[1].substr(0, w[1].find('+')));
-    res = execIt(a, w, 3);
+    Tab T = makeTab(a);
+    res = execIt(T, w, 3);
   });
   return ok ? res : badOp();
 }
@@ -1313,11 +1451,10 @@ static const std::vector<KSpec>& kinds() {
   const long LMAX = std::numeric_limits<long>::max(), LMIN = std::numeric_limits<long>::min();
   static const std::vector<KSpec> k = {
       {"dynv", 2, true, true, false, true, -1, {}, false, 0, 0},
-      {"fvec", 2, true, true, false, true, -1, {1, 2, 3, 4, 6}, false, 0, 0},
+      {"fvec", 2, true, true, false, true, -1, {1, 3, 6}, false, 0, 0},
       {"dmat", 2, true, true, false, true, -1, {}, false, 0, 0},
-      {"fmat", 2, true, true, false, true, -1, {1, 2, 3, 5}, false, 0, 0},
-      {"diag", 1, true, true, false, true, -1, {2, 3, 5}, false, 0, 0},
-      {"al1", 2, false, false, false, false, 4, {}, false, 0, 0},
+      {"fmat", 2, true, true, false, true, -1, {2, 3}, false, 0, 0},
+      {"diag", 1, true, true, false, true, -1, {2, 3}, false, 0, 0},
       {"al3", 2, false, false, false, false, 7, {}, false, 0, 0},
       {"al100", 2, false, false, false, false, 3, {}, false, 0, 0},
       {"sll", 0, false, true, false, false, -1, {}, false, 0, 0},
@@ -1325,6 +1462,8 @@ static const std::vector<KSpec>& kinds() {
       {"gira", 2, true, true, false, false, -1, {}, false, 0, 0},
       {"gibi", 1, true, true, false, false, -1, {}, false, 0, 0},
       {"gifw", 0, true, true, false, false, -1, {}, false, 0, 0},
+      {"owra", 2, true, true, false, false, -1, {}, false, 0, 0},
+      {"owbi", 1, true, true, false, false, -1, {}, false, 0, 0},
       {"iiv", 2, false, true, false, true, 9, {}, false, 0, 0},
       {"iil", 1, false, true, false, true, 9, {}, false, 0, 0},
       {"iif", 0, false, true, false, true, 9, {}, false, 0, 0},
@@ -1336,7 +1475,6 @@ static const std::vector<KSpec>& kinds() {
       {"ir_i8", 2, false, true, true, false, -1, {}, true, -128, 127},
       {"ir_u8", 2, false, true, true, false, -1, {}, true, 0, 255},
       {"ir_i16", 2, false, true, true, false, -1, {}, true, -32768, 32767},
-      {"ir_u16", 2, false, true, true, false, -1, {}, true, 0, 65535},
       {"ir_i32", 2, false, true, true, false, -1, {}, true, -2147483648L, 2147483647L},
       {"ir_u32", 2, false, true, true, false, -1, {}, true, 0, 4294967295L},
       {"ir_i64", 2, false, true, true, false, -1, {}, true, LMIN, LMAX},
@@ -1533,7 +1671,7 @@ static std::string genHybrid(Rng& r) {
       vals = listStr(v);
       n = (long)v.size();
     } else {
-      n = r.range(0, 8);
+      n = ck == "tuple" ? r.range(0, 6) : ck == "tvec" ? r.pick(std::vector<long>{0, 1, 3, 6}) : r.pick(std::vector<long>{0, 2, 5});
       vals = genVals(r, n, 1000);
     }
     std::string op = r.pick(std::vector<std::string>{"size", "elementAt", "forEach", "accumulate"});
@@ -1550,7 +1688,8 @@ static std::string genHybrid(Rng& r) {
     return os.str();
   }
   if (w == 6) {
-    long f = r.range(0, 8), t = r.range(f, 8);
+    auto sr = r.pick(staticRanges());
+    long f = sr.first, t = sr.second;
     if (r.coin(1, 4)) { f = r.range(-20, 20); t = f + r.range(0, 10); }
     long x;
     switch (r.below(4)) {
@@ -1563,7 +1702,8 @@ static std::string genHybrid(Rng& r) {
     return os.str();
   }
   if (w == 7) {
-    long f = r.range(0, 8), t = r.range(f, 8);
+    auto sr = r.pick(staticRanges());
+    long f = sr.first, t = sr.second;
     std::string op = r.pick(std::vector<std::string>{"size", "elementAt", "forEach", "accumulate"});
     if (op == "elementAt" && f == t) op = "forEach";
     os << "hy irange " << f << ":" << t << " " << op;
